@@ -50,6 +50,12 @@ MUTANTS = [
     ("is-empty-unbounded-means-empty", POLY, 'elif res["status"] in {0, 3}:\n            return False', 'elif res["status"] in {0}:\n            return False\n        elif res["status"] == 3:\n            return True', [], []),
     ("nested-contains-all", CPD, "                if tl.contains_behavior(behavior):\n                    return True", "                if not tl.contains_behavior(behavior):\n                    return False", ["C17"], []),
     ("intersect-keeps-empty", CPD, "                if not new_tl.is_empty():\n                    new_nested_tl.append(new_tl)", "                new_nested_tl.append(new_tl)", ["C17"], []),
+    ("print-3-digits", SER, '        return f"{n:.4g}"\n    return str(n)', '        return f"{n:.3g}"\n    return str(n)', ["C10"], []),
+    ("print-negative-coefficient-sign", SER, 'res += " - " + _number_to_string(-coeff) + " " + var.name', 'res += " - " + _number_to_string(coeff) + " " + var.name', ["C10"], []),
+    ("fold-equality-uses-other-constant", SER, 's = _lhs_str(tp) + " = " + _number_to_string(tp.constant)', 's = _lhs_str(tp) + " = " + _number_to_string(tn.constant)', ["C10"], []),
+    ("fold-abs-without-constant-check", SER, "                elif _are_numbers_approximatively_equal(tp.constant, tn.constant):", "                elif True:", ["C10"], []),
+    ("machine-dict-int-constant", PIC, '"constant": float(term.constant),\n                "coefficients": {str(k): float(v) for k, v in term.variables.items()},\n            }\n            for term in self.g.terms', '"constant": float(term.constant) + 0.5,\n                "coefficients": {str(k): float(v) for k, v in term.variables.items()},\n            }\n            for term in self.g.terms', ["C10"], []),
+    ("file-swaps-representation", FIO, 'if machine_representation:\n                entry["type"] = "PolyhedralIoContract_machine"\n                entry["data"] = c.to_machine_dict()', 'if machine_representation:\n                entry["type"] = "PolyhedralIoContract_machine"\n                entry["data"] = c.copy().to_machine_dict()', [], ["C10"]),
     ("compose-wrong-context", IOC, "other.a | other.g, assumptions_forbidden_vars, simplify=True, tactics_order=tactics_order", "other.a, assumptions_forbidden_vars, simplify=True, tactics_order=tactics_order", [], []),
     ("tactic2-polarity", POLY, "polarity = 1\n        if refine:\n            polarity = -1\n        objective = [polarity * term.get_coefficient(var) for var in variables]", "polarity = -1\n        if refine:\n            polarity = 1\n        objective = [polarity * term.get_coefficient(var) for var in variables]", ["C04"], []),
     ("reduce-drops-near-redundant", POLY, '(res["status"] == 0 and -res["fun"] <= b_temp[i])', '(res["status"] == 0 and -res["fun"] <= b_temp[i] + 0.5)', ["C07"], []),
